@@ -267,19 +267,12 @@ struct Schedule
 		{
 			const tm result(now.get_tm());
 
-			//cout >> now << ' ' >> (today + _start) << ' ' >> (today + _end) << ' ' << result.tm_wday << endl;
-
-			if (!prev)
-			{
-				if ( ((_start_day > _end_day && (result.tm_wday >= _start_day || result.tm_wday <= _end_day))
-					|| (_start_day < _end_day && result.tm_wday >= _start_day && result.tm_wday <= _end_day))
-					&& now.in_range(today + _start, today + _end))
-						active = true;
-			}
-			else if ( ((_start_day > _end_day && (result.tm_wday < _start_day && result.tm_wday > _end_day))
-					  || (_start_day < _end_day && result.tm_wday >= _end_day))
-						 && now > today + _end)
-					active = false;
+			// where in the week now, the window start (start day at start time) and the window end (end day at end time) lie;
+			// the window may begin and end on the same weekday and may wrap over the end of the week
+			const Tickval::ticks wnow(result.tm_wday * Tickval::day + (now.get_ticks() - today.get_ticks())),
+				wstart(_start_day * Tickval::day + _start.get_ticks()),
+				wend(_end_day * Tickval::day + (_end.is_errorval() ? Tickval::day - 1 : _end.get_ticks()));
+			active = wstart <= wend ? wstart <= wnow && wnow <= wend : wnow >= wstart || wnow <= wend;
 		}
 
 		return active;
